@@ -32,6 +32,17 @@ CHECKS["C12"] = dict(
    note="Trusts expat as the meaning of well-formedness; tolerates only what XML makes unobservable (line-end and attribute-value normalisation, indentation whitespace between tags, repeated identical namespace declarations).",
    ref="DESIGN.md section 5 C12")
 
+CHECKS["C08"] = dict(
+   technique="exhaustive enumeration + property-based testing with real shells (dash, bash) as the oracle",
+   text="Every string up to length 3 (quick) / 5 (thorough) over {' \" \\ $ ` space newline * a} is placed as env value, flag value, list-flag item, exec command, exec argument, exec env value and exec flag-tuple value, and all 1,364 tuples of 1..5 fields over {scalar, NULL, list, tuple} are converted by env and flags; /bin/sh and bash source / eval the converter output and report the variables and argument words they see, which must equal the inputs, with no side effect in the working directory; random Unicode strings and command-substitution payloads extend the enumeration.",
+   note="Trusts dash and bash as 'a POSIX shell'; exec scripts are read with `exec` replaced by a reporting function; names are safe identifiers.",
+   ref="DESIGN.md section 5 C08")
+CHECKS["C15"] = dict(
+   technique="property-based testing: generated documents from independent emitters, Python decoders as self-check and as oracle for corrupted variants",
+   text="Generated trees are written as JSON / YAML / TOML documents by the harness's own emitters (many spellings of the same data) and included through a built file; the bound value must equal the tree. Python's decoders must agree with the tree first (emitter self-check) and decide truncated / corrupted / whitespace-only variants. include str / b64 / b64urlsafe are checked against the file text and an own base64 implementation on arbitrary bytes; several includes of one file in one build must each equal the include alone; unknown types must fail.",
+   note="Restricted to constructs on which decoders agree (unique string keys, no anchors/tags, 64-bit integers, homogeneous TOML arrays); corrupted-YAML accept/reject disagreements are counted, not alarmed; an empty data file is excluded.",
+   ref="DESIGN.md section 5 C15")
+
 PENDING = {}
 
 def main():
